@@ -27,12 +27,12 @@ META = {
 }
 
 
-def case_interrupts(rec, n_warm, n_main, n_process, stager):
+def case_interrupts(rec, n_warm, n_main, n_process, stager, twu=True):
     rec.encoded(SA._sample_chain, SA._sample_chains_sequential, SA._sample_chains_parallel, SA._sample_chains_worker,
                 SA.MarkovChainMonteCarloMethod.sample_chains)
     n_chain = 2
-    full = SL.run(n_warm, n_main, n_chain=n_chain, n_process=n_process, trace_warm_up=True, stager=stager, adapters="fast")
-    total_calls = {"transition": n_chain * (n_warm + n_main), "trace": n_chain * (n_warm + n_main), "adapter": n_chain * n_warm}
+    full = SL.run(n_warm, n_main, n_chain=n_chain, n_process=n_process, trace_warm_up=twu, stager=stager, adapters="fast")
+    total_calls = {"transition": n_chain * (n_warm + n_main), "trace": n_chain * ((n_warm if twu else 0) + n_main), "adapter": n_chain * n_warm}
     viol = {}
     n = 0
     for site, tot in total_calls.items():
@@ -40,7 +40,7 @@ def case_interrupts(rec, n_warm, n_main, n_process, stager):
             n += 1
             rec.path()
             try:
-                res = SL.run(n_warm, n_main, n_chain=n_chain, n_process=n_process, trace_warm_up=True, stager=stager, adapters="fast",
+                res = SL.run(n_warm, n_main, n_chain=n_chain, n_process=n_process, trace_warm_up=twu, stager=stager, adapters="fast",
                              interrupt=(site, k))
             except BaseException as e:  # noqa: BLE001
                 viol.setdefault(f"escapes:{type(e).__name__}", (f"{type(e).__name__} escapes sample_chains when interrupted at {site} call {k}", (site, k)))
@@ -78,7 +78,7 @@ def case_interrupts(rec, n_warm, n_main, n_process, stager):
                     viol.setdefault("continues-after-interrupt", (f"interrupt at transition call {k}: {len(draws)} iterations were sampled", (site, k)))
     rec.note(f"{n} interrupt positions")
     for key, (msg, pos) in viol.items():
-        rec.candidate(key=f"interrupt:{key}", label=msg, payload={"args": [n_warm, n_main, n_process, stager], "pos": list(pos)})
+        rec.candidate(key=f"interrupt:{key}", label=msg, payload={"args": [n_warm, n_main, n_process, stager, twu], "pos": list(pos)})
     rec.sample({"n_warm": n_warm, "n_main": n_main, "n_process": n_process, "stager": stager, "positions": n})
     rec.obligation(f"{n} interrupt positions (n_process={n_process}, {stager}): consistent prefix returned", [], z3.BoolVal(False), syntactic=True)
 
@@ -91,15 +91,21 @@ def cases(tier):
             for n_warm, n_main in (((2, 2), (0, 3), (3, 3)) if th else ((2, 2), (0, 2))):
                 out.append(Case(f"interrupt/p{n_process}/{stager}/{n_warm}+{n_main}", case_interrupts,
                                 {"n_warm": n_warm, "n_main": n_main, "n_process": n_process, "stager": stager}, timeout_s=900))
+            # warm-up not traced (the default): an interrupt in an untraced stage must still stop everything
+            out.append(Case(f"interrupt/p{n_process}/{stager}/2+2/untraced", case_interrupts,
+                            {"n_warm": 2, "n_main": 2, "n_process": n_process, "stager": stager, "twu": False}, timeout_s=900))
+        out.append(Case(f"interrupt/p{n_process}/windowed111/4+2/untraced", case_interrupts,
+                        {"n_warm": 4, "n_main": 2, "n_process": n_process, "stager": "windowed111", "twu": False}, timeout_s=900))
     return out
 
 
 def replay(cand):
     p = cand.get("payload") or {}
-    n_warm, n_main, n_process, stager = p["args"]
+    n_warm, n_main, n_process, stager = p["args"][:4]
+    twu = p["args"][4] if len(p["args"]) > 4 else True
     site, k = p["pos"]
     try:
-        res = SL.run(n_warm, n_main, n_chain=2, n_process=n_process, trace_warm_up=True, stager=stager, adapters="fast", interrupt=(site, k))
+        res = SL.run(n_warm, n_main, n_chain=2, n_process=n_process, trace_warm_up=twu, stager=stager, adapters="fast", interrupt=(site, k))
         detail = f"returned traces {res['traces']['pos']}"
     except BaseException as e:  # noqa: BLE001
         detail = f"{type(e).__name__} escapes sample_chains"
